@@ -118,7 +118,7 @@ class _Held:
     def violation(self, rule_id, key, site, what, path=None):
         origin = key.split("|origin=", 1)[1] if "|origin=" in key else ""
         fq, _, text = origin.partition("|")
-        if fq.startswith(f"myst_parser.{OPT}:") and text.startswith(("int(", "chr(")):
+        if fq.startswith(f"myst_parser.{OPT}:") and text.startswith(("int(", "chr(", "assert ")):
             self.held.append((rule_id, key, site, what, path, fq, text))
         else:
             self._rep.violation(rule_id, key, site, what, path)
@@ -202,6 +202,25 @@ def _rejudge(e9, corpus: Corpus, fq: str, text: str) -> str | None:
     return "; ".join(sorted(set(whys)))
 
 
+def _rejudge_assert(corpus: Corpus, fq: str, text: str) -> str | None:
+    """an `assert <pending key> is not None` in the value-token branch of _to_tokens is discharged by the protocol invariant"""
+    fi = corpus.func(fq.replace("myst_parser.", "", 1))
+    if fi.name != "_to_tokens":
+        return None
+    cfg = get_cfg(fi)
+    asserts = [a for a in fi.local_nodes() if isinstance(a, ast.Assert) and short(a) == text]
+    kvs = [n.target.id for n in fi.local_nodes() if isinstance(n, ast.AnnAssign) and isinstance(n.target, ast.Name) and "KeyToken" in unparse(n.annotation)]
+    if not asserts or len(kvs) != 1:
+        return None
+    for a in asserts:
+        if unparse(a.test) not in (f"{kvs[0]} is not None", kvs[0]):
+            return None
+        if not any(pol and isinstance(t, ast.Call) and dotted(t.func) == "isinstance" and len(t.args) == 2 and unparse(t.args[1]) == "ValueToken" for t, pol in cfg.guards(a)):
+            return None  # only established where a value token has just arrived
+    ok, why = protocol_proof(corpus)
+    return why if ok else None
+
+
 def _rejudge_call(e9, fi: FunctionInfo, call: ast.Call) -> str | None:
     cfg = get_cfg(fi)
     name = dotted(call.func)
@@ -241,7 +260,7 @@ def r1_closed_failure_mode(corpus: Corpus, rep: Report, tier: str):
     if held:
         e9 = get_e9(corpus)
         for rule_id, key, site, what, path, fq, text in held:
-            why = _rejudge(e9, corpus, fq, text)
+            why = _rejudge_assert(corpus, fq, text) if text.startswith("assert ") else _rejudge(e9, corpus, fq, text)
             if why:
                 rep.ok(rule_id, key, site, "discharged by C07's character facts: " + why)
             else:
@@ -908,6 +927,7 @@ class Side:
         self._validation = None
         self._runs = None
         self._lengths = None
+        self._exit_flags = None
 
     def _bind(self, t, v):
         if isinstance(t, ast.Name):
@@ -1056,6 +1076,26 @@ class Side:
         if g[0].startswith(("peek(", "prefix(", "buffer[", ".", "run", "all:")) or (g[0].endswith("()") and g[0][:-2] in CANON_Y):
             return (g[0] + self.loop_tag(node),) + tuple(g[1:])
         return g
+
+    def exit_flags(self) -> set:
+        """locals that only carry a loop's exit decision: assigned constants True/False only, read only as a while test"""
+        if self._exit_flags is None:
+            out = set()
+            tests = {}
+            for n in self.fi.local_nodes():
+                if isinstance(n, ast.While):
+                    t = n.test
+                    while isinstance(t, ast.UnaryOp) and isinstance(t.op, ast.Not):
+                        t = t.operand
+                    if isinstance(t, ast.Name):
+                        tests[t.id] = tests.get(t.id, 0) + 1
+            for nm in tests:
+                defs = self.defs.get(nm, [])
+                loads = sum(1 for x in self.fi.local_nodes() if isinstance(x, ast.Name) and x.id == nm and isinstance(x.ctx, ast.Load))
+                if defs and all(idx is None and isinstance(v, ast.Constant) and isinstance(v.value, bool) for v, idx in defs) and loads == tests[nm] and nm not in self.params:
+                    out.add(nm)
+            self._exit_flags = out
+        return self._exit_flags
 
     def length_names(self) -> set:
         """locals used as the length of a forward()/prefix(): testing them only guards a no-op"""
@@ -1226,6 +1266,7 @@ class Side:
             f"set:{n.value.value}"
             for n in nodes
             if isinstance(n, ast.Assign) and len(n.targets) == 1 and isinstance(n.targets[0], ast.Name) and isinstance(n.value, ast.Constant) and (n.value.value is None or isinstance(n.value.value, bool))
+            and n.targets[0].id not in self.exit_flags()
         ]
 
     def validation(self):
@@ -1404,11 +1445,16 @@ class Side:
             for y in ([f"read:peek({i})" for i in range(int(mt.group(1)))] if mt else [x]):  # a fixed-length slice reads those offsets
                 do[y] = 1
         emit = Counter(x for x in eff if x.startswith("emit:"))
+        void = all(r.value is None or (isinstance(r.value, ast.Constant) and r.value.value is None) for r in nodes if isinstance(r, ast.Return))
         for n in nodes:
             if isinstance(n, ast.Return):
                 v = n.value
+                if void:
+                    continue  # a procedure: `return` only leaves it (early exit instead of a flag or nesting)
                 if isinstance(v, ast.IfExp) or (isinstance(v, ast.Call) and isinstance(v.func, ast.Name) and v.func.id[:1].isupper()):
                     continue  # token construction: the classes differ by design
+                if isinstance(v, ast.Call) and isinstance(v.func, ast.Name) and v.func.id not in CANON and not any(isinstance(a, ast.Name) and a.id == self.recv for a in v.args):
+                    continue  # a token factory that never sees the stream
                 # distinct returned values (an early return repeating one is not a new emission)
                 emit[f"return:tuple/{len(v.elts)}" if isinstance(v, ast.Tuple) else "return:" + self.norm(v)] = 1
         for n in nodes:  # position accounting: stores to the receiver's own fields
@@ -1432,6 +1478,8 @@ class Side:
                 while isinstance(v, ast.UnaryOp) and isinstance(v.op, ast.Not):
                     v, pol = v.operand, ("" if pol else "not ")
                 if isinstance(v, ast.Name):
+                    if v.id in self.exit_flags():
+                        continue  # `found = False; while not found: ... found = True` is `while True: ... break/return`
                     if v.id in self.aug or v.id in self.length_names():
                         continue  # `if length:` around forward(length)/prefix(length): guarding a no-op changes nothing
                     if not pol and isinstance(n, ast.If) and v is n.test and not n.orelse and all(
@@ -1753,6 +1801,7 @@ _REFILL = "yaml.reader.Reader refills its buffer lazily; StreamBuffer holds the 
 _SEP_SET = "".join(sorted("\0 \t\r\n\x85\u2028\u2029"))
 DEVIATIONS: dict[tuple[str, str], dict[str, dict]] = {
     ("_scan_plain_scalar", "guards"): {"opt": {("peek(0)", "in", "#"): (1, "second `#` test only records State.has_comments")}},
+    ("_scan_block_scalar", "guards"): {"yaml": {("v", "<", "1"): (1, "PyYAML clamps `self.indent + 1` because its parent indentation can be -1; the port's parent mapping is at column 0 by contract (a constant, not a parameter of _scan_block_scalar), so the clamp can never fire and may be folded away")}},
     ("_scan_plain_scalar", "flags"): {"opt": {"flag:param": (2, "is_key: a `: ` inside a *value* does not end the scalar (values are never nested mappings); continuation indent is 0 for keys (column 0 by contract) and 1 for values")}},
     ("_scan_plain_spaces", "flags"): {"opt": {"flag:param": (1, "allow_newline: keys are single-line, as YAML's simple-key rule demands")}},
     ("_scan_plain_spaces", "guards"): {"yaml": {("peek(3)", "in", _SEP_SET): (2, _DOCSEP), **{(f"peek({i})", "in", c): (2, _DOCSEP) for i in range(3) for c in "-."}}},
@@ -1797,6 +1846,8 @@ def r4_fingerprints(corpus: Corpus, rep: Report, tier: str) -> None:
                 lacks = True
         for kind, x, yv in zip(("guards", "effects", "emits", "flags"), a, b):
             dev = DEVIATIONS.get((o, kind), {})
+            if (o, kind) == ("_scan_block_scalar", "guards") and any("indent" in p_ for p_ in of.params):
+                dev = {}  # the clamp deviation only holds while the parent indentation is not an input of the function
             only_o, only_y = x - yv, yv - x
             for e, n in (x & yv).items():
                 rep.ok("C07.R4", f"{of.fq}|{kind}|{_fmt(e)}", of.site(), f"x{n}, as in {y}")
@@ -2983,6 +3034,159 @@ def r3_in_bounds(corpus: Corpus, rep: Report, tier: str):
 
 
 # ---------------------------------------------------------------------------
+# the key / colon / value protocol between _tokenize and _to_tokens
+
+
+def _honours_is_key(f: FunctionInfo, m: Module, depth: int = 0) -> bool:
+    """every return of ``f`` is a KeyToken exactly when its parameter is_key is true (else a ValueToken)"""
+    if "is_key" not in f.params or depth > 2:
+        return False
+    cfg = get_cfg(f)
+    rets = [r for r in f.local_nodes() if isinstance(r, ast.Return)]
+    if not rets:
+        return False
+
+    def kind(e, pol_known):
+        """'key' / 'value' / 'by-flag' / None for a returned expression"""
+        if isinstance(e, ast.IfExp) and isinstance(e.test, ast.Name) and e.test.id == "is_key":
+            return "by-flag" if kind(e.body, None) == "key" and kind(e.orelse, None) == "value" else None
+        if isinstance(e, ast.Call) and isinstance(e.func, ast.Name):
+            if e.func.id == "KeyToken":
+                return "key"
+            if e.func.id == "ValueToken":
+                return "value"
+            h = m.functions.get(e.func.id)
+            if h is not None and "is_key" in h.params and _honours_is_key(h, m, depth + 1):
+                i = h.params.index("is_key")
+                a = e.args[i] if i < len(e.args) else next((k.value for k in e.keywords if k.arg == "is_key"), None)
+                if isinstance(a, ast.Name) and a.id == "is_key":
+                    return "by-flag"
+        return None
+
+    for r in rets:
+        k = kind(r.value, None)
+        if k == "by-flag":
+            continue
+        facts_ = [(unparse(t), pol) for t, pol in cfg.guards(cfg.stmt_of(r))]
+        if k == "key" and ("is_key", True) in facts_:
+            continue
+        if k == "value" and (("is_key", False) in facts_):
+            continue
+        return False
+    return True
+
+
+def _token_kind(e, fi: FunctionInfo, m: Module) -> str:
+    """'key' | 'value' | 'colon' | 'unknown' for an expression yielded by _tokenize"""
+    if not (isinstance(e, ast.Call) and isinstance(e.func, ast.Name)):
+        return "unknown"
+    if e.func.id in ("KeyToken", "ValueToken", "ColonToken"):
+        return {"KeyToken": "key", "ValueToken": "value", "ColonToken": "colon"}[e.func.id]
+    callee = m.functions.get(e.func.id)
+    if callee is None or callee.is_lambda:
+        return "unknown"
+    if "is_key" in callee.params:
+        if not _honours_is_key(callee, m):
+            return "unknown"
+        i = callee.params.index("is_key")
+        a = e.args[i] if i < len(e.args) else next((k.value for k in e.keywords if k.arg == "is_key"), None)
+        if a is None:
+            d, pos = callee.node.args.defaults, callee.node.args.args
+            j = i - (len(pos) - len(d))
+            a = d[j] if 0 <= j < len(d) else None
+        if isinstance(a, ast.Constant) and isinstance(a.value, bool):
+            return "key" if a.value else "value"
+        return "unknown"
+    ann = unparse(callee.node.returns) if callee.node.returns is not None else ""
+    return {"KeyToken": "key", "ValueToken": "value", "ColonToken": "colon"}.get(ann.strip("'\""), "unknown")
+
+
+def protocol_proof(corpus: Corpus) -> tuple[bool, str]:
+    """Is the invariant 'a value token is only yielded after its key token, and the pending key is reset only after its value'
+    established by _tokenize / _to_tokens?  (ok, explanation naming the invariant or the path that breaks it)"""
+    cached = corpus._cache.get("c07-protocol")
+    if cached is not None:
+        return cached
+    m = optmod(corpus)
+    tok, tt = m.func("_tokenize"), m.func("_to_tokens")
+    res = _protocol_proof(m, tok, tt)
+    corpus._cache["c07-protocol"] = res
+    return res
+
+
+def _protocol_proof(m: Module, tok: FunctionInfo, tt: FunctionInfo) -> tuple[bool, str]:
+    # (P1) producer: between two value tokens (and before the first) _tokenize yields a key token
+    cfg = get_cfg(tok)
+    yields = [s for s in cfg.nodes if isinstance(s, ast.Expr) and isinstance(s.value, (ast.Yield, ast.YieldFrom))]
+    kinds = {}
+    for y in yields:
+        if isinstance(y.value, ast.YieldFrom) or y.value.value is None:
+            return False, f"_tokenize yields something that is not a single token at line {y.lineno}"
+        kinds[y] = _token_kind(y.value.value, tok, m)
+        if kinds[y] == "unknown":
+            return False, f"_tokenize: the kind of token yielded by `{short(y.value.value, 50)}` cannot be determined"
+    values = [y for y in yields if kinds[y] == "value"]
+    keys = {id(y) for y in yields if kinds[y] == "key"}
+    if not values or not keys:
+        return False, "_tokenize: key / value yields not found"
+    for start in [ENTRY] + values:
+        bad = _reach1(cfg, start, values, lambda n: id(n) in keys)
+        if bad:
+            frm = "the start of the stream" if start == ENTRY else f"the value yielded at line {start.lineno}"
+            return False, f"_tokenize can yield the value at line {bad[0].lineno} after {frm} without a key token in between"
+    # (P2) consumer: the pending key is set on every key token, reset only right after a value token was paired, untouched otherwise
+    cfg = get_cfg(tt)
+    kvs = [n.target.id for n in tt.local_nodes() if isinstance(n, ast.AnnAssign) and isinstance(n.target, ast.Name) and "KeyToken" in unparse(n.annotation)]
+    loops = [n for n in tt.local_nodes() if isinstance(n, ast.For) and isinstance(n.iter, ast.Call) and dotted(n.iter.func) == "_tokenize" and isinstance(n.target, ast.Name)]
+    if len(kvs) != 1 or len(loops) != 1:
+        return False, "_to_tokens: pending-key variable / loop over _tokenize not found"
+    kv, loop, tv = kvs[0], loops[0], loops[0].target.id
+    in_loop = {id(x) for b in loop.body for x in ast.walk(b)}
+
+    def branch_of(st):
+        """which isinstance(token, X) outcomes dominate ``st``: {'key': bool, 'value': bool}"""
+        out = {}
+        for t, pol in cfg.guards(st):
+            if isinstance(t, ast.Call) and dotted(t.func) == "isinstance" and len(t.args) == 2 and unparse(t.args[0]) == tv:
+                nm = unparse(t.args[1])
+                if nm in ("KeyToken", "ValueToken"):
+                    out["key" if nm == "KeyToken" else "value"] = pol
+        return out
+
+    for s in cfg.nodes:
+        if not (isinstance(s, (ast.Assign, ast.AnnAssign)) and kv in _assigned(s)):
+            continue
+        is_none = isinstance(s.value, ast.Constant) and s.value.value is None
+        if id(s) not in in_loop:
+            if not is_none and cfg.is_reachable(s) and any(id(x) in in_loop for x in cfg.reachable_from(s) if isinstance(x, ast.AST)):
+                return False, f"_to_tokens sets {kv} before the loop to something else than None"
+            continue
+        br = branch_of(s)
+        if is_none:
+            if br.get("value") is not True:
+                return False, f"_to_tokens resets {kv} at line {s.lineno} outside the value-token branch"
+            # ... and only after the pair was yielded
+            ys = [y for y in cfg.nodes if isinstance(y, ast.Expr) and isinstance(y.value, ast.Yield) and y.value.value is not None and kv in {n.id for n in ast.walk(y.value.value) if isinstance(n, ast.Name)} and branch_of(y).get("value") is True]
+            if not any(cfg.dominates(y, s) for y in ys):
+                return False, f"_to_tokens resets {kv} at line {s.lineno} before the (key, value) pair is yielded"
+        else:
+            if not (br.get("key") is True and unparse(s.value) == tv):
+                return False, f"_to_tokens assigns {kv} at line {s.lineno} from something else than a key token"
+    # every key token reaches the assignment: from the T edge of isinstance(token, KeyToken) no path to the loop head avoids it
+    key_tests = [s for s in cfg.nodes if isinstance(s, ast.If) and id(s) in in_loop and unparse(s.test) == f"isinstance({tv}, KeyToken)"]
+    sets = [s for s in cfg.nodes if isinstance(s, ast.Assign) and id(s) in in_loop and kv in _assigned(s) and unparse(s.value) == tv]
+    if len(key_tests) != 1 or not sets:
+        return False, "_to_tokens: the key-token branch was not found"
+    if _reach1(cfg, ("T", key_tests[0]), [loop], lambda n: any(n is s for s in sets)):
+        return False, f"_to_tokens can process a key token without storing it in {kv}"
+    return True, (
+        f"invariant: _tokenize yields every value token after a key token with only the colon in between (checked on its CFG: no path from the start "
+        f"or from a value yield to a value yield avoids a key yield; is_key decides the token class); _to_tokens stores every key token in {kv}, "
+        f"leaves it alone for other tokens and resets it only after the (key, value) pair was yielded - so {kv} is not None whenever a value token arrives"
+    )
+
+
+# ---------------------------------------------------------------------------
 # R6 state machine around the scanners: dispatch sets, key/value roles, pair assembly
 
 
@@ -3144,6 +3348,13 @@ def r6_state_machine(corpus: Corpus, rep: Report, tier: str):
             rep.violation("C07.R6", k, m.site(y), f"after this yield the same key can be yielded again (`{short(again[0], 40)}`) without {kv} being re-assigned: a key with a value is reported a second time with ''")
         else:
             rep.ok("C07.R6", k, m.site(y))
+    ok_, why_ = protocol_proof(corpus)
+    k = f"{tt.fq}|a value token arrives only while a key is pending"
+    if ok_:
+        rep.ok("C07.R6", k, tt.site(), why_)
+    else:
+        # not a defect by itself while _to_tokens still answers that state with its TokenizeError; an assert there is then not discharged (C07.R1)
+        rep.listed("C07.R6", k, tt.site(), "not established: " + why_)
     # -- options_to_items: (key.value, value.value if value is not None else "")
     oti = m.func("options_to_items")
     loops = [n for n in oti.local_nodes() if isinstance(n, (ast.For, ast.comprehension)) and isinstance(n.iter, ast.Call) and dotted(n.iter.func) == "_to_tokens"]
@@ -3485,4 +3696,21 @@ def mutants(corpus: Corpus):
         "        return TokenizeError(self.problem, _shift(self.problem_mark), self.context, _shift(self.context_mark))",
         "None-guard",
     )
+    # --- round 7: the unreachable "expected key before value" branch as an assert - discharged only while the protocol holds ---
+    tt_ = m.func("_to_tokens")
+    guard_ = find_node(tt_, lambda n: isinstance(n, ast.If) and unparse(n.test) == "key_token is None" and any(isinstance(x, ast.Raise) for x in n.body))
+    tok_ = m.func("_tokenize")
+    keycall = find_node(tok_, lambda n: isinstance(n, ast.keyword) and n.arg == "is_key" and unparse(n.value) == "True" and isinstance(parent(n), ast.Call) and dotted(parent(n).func) == "_scan_plain_scalar")
+    setkey = find_node(tt_, lambda n: isinstance(n, ast.Assign) and unparse(n) == "key_token = token")
+    if guard_ is not None and keycall is not None and setkey is not None:
+        for mid, node, text in (
+            ("c07-assert-with-key-scanned-as-value", keycall, "is_key=False"),
+            ("c07-assert-with-key-not-stored", setkey, "key_token = None"),
+        ):
+            src2 = m.src
+            for n_, t_ in sorted(((guard_, "assert key_token is not None"), (node, text)), key=lambda e: (-e[0].lineno, -e[0].col_offset)):
+                src2 = splice(src2, n_, t_)
+            out.append(Mutant(mid, "C07.R1", m.rel, src2, expect="assert key_token is not None"))
+    else:
+        out.append(("c07-assert-with-key-scanned-as-value", "guard / key call not found"))
     return out
